@@ -132,6 +132,9 @@ pub enum Ev {
     /// soak: n rejected deliveries in a row on receiver r (variants of the record it would accept next,
     /// or garbage if there is none); every one must be rejected and leave the position alone
     RejectBurst { r: usize, from: usize, n: u32 },
+    /// n messages of `len` bytes sealed and opened in place between sender c and receiver c without
+    /// keeping records (total volume beyond 2^32 bytes on one context)
+    VolumePump { c: usize, n: u32, len: usize },
     /// n exports in a row on one context (counters of successes in a narrow integer)
     ExportBurst { c: usize, role: Role, n: u32, len: usize },
     /// context dropped while its thread is unwinding from a panic (the wipes must still happen)
@@ -175,6 +178,7 @@ impl Ev {
             Ev::On { .. } => "On",
             Ev::RejectBurst { .. } => "RejectBurst",
             Ev::ExportBurst { .. } => "ExportBurst",
+            Ev::VolumePump { .. } => "VolumePump",
             Ev::TeardownUnwinding { .. } => "TeardownUnwinding",
             Ev::StripZerosProbe { .. } => "StripZerosProbe",
             Ev::SingleShotOpenRaw { .. } => "SingleShotOpenRaw",
